@@ -835,6 +835,10 @@ Definition case (cont : list (modid * content)) (imps : list (modid * (content *
   let c := mk_store ents in
   (rechecked (t_content cont) (t_imports imps) (fun _ _ _ => []) (t_analyze an) (fun _ => sccs) (t_reach rch) t_sdo (t_thash th) (t_ign ign) c fs o,
    report fs (fst (run (t_content cont) (t_imports imps) (fun _ _ _ => []) (t_analyze an) (fun _ => sccs) (t_reach rch) t_sdo (t_thash th) (t_ign ign) c fs o 1))).
+Definition stab (cont : list (modid * content)) (imps : list (modid * (content * list modid))) (an : list (modid * result))
+  (sccs : list (list modid)) (rch : list (modid * modid)) (ents : list (modid * (meta * meta_ex * data)))
+  (ign : list modid) (th : list (modid * nat)) (fs : FS) (o : opts) : bool :=
+  scc_stable (t_content cont) (t_imports imps) (fun _ _ _ => []) (fun _ => sccs) (t_ign ign) (mk_store ents) fs o.
 """
 
 
@@ -868,6 +872,7 @@ def model_cases(h: dict, res: dict) -> list[dict]:
     mods = Interner()
     cases = []
     view: dict[str, dict] = {}       # cache as read back after the previous runs (records stay on disk)
+    ghost: dict[str, tuple] = {}     # ghost fields of the model: (run number, SCC member list) of the call that wrote the entry
     last_write: dict[str, int] = {}
     prev_files: dict[str, str] = {}
     skip_next = True                 # step 0 starts from the typeshed-only cache: compared too (everything stale)
@@ -909,7 +914,7 @@ def model_cases(h: dict, res: dict) -> list[dict]:
                         f"({mods(m)}, (ME {I(('s', me['path'], me['mtime'], me['size']))} {I(('c', me['hash']))} "
                         f"{cl(mods(d) for d, _ in dd)} {cl(mods(d) for d in me['supp'])} {I(('o', me['options']))} {I(('v', me['version']))} "
                         f"{I(('p', me['plugin']))} {0 if me['sdo'] == '' else 1} {I(('i', me['ih']))} {cl(I(('i', x)) for _, x in dd)} {I(('t', me['thash']))} "
-                        f"{'true' if me['ignore_all'] else 'false'} {me['data_mtime'] % 100000}, "
+                        f"{'true' if me['ignore_all'] else 'false'} {me['data_mtime'] % 100000} {ghost.get(m, (0, [m]))[0]} {cl(mods(y) for y in ghost.get(m, (0, [m]))[1])}, "
                         f"XE {cl(mods(d) for d, _ in xd)} {cl(I(('i', x)) for _, x in xd)} {cl(I(('e', tuple(x))) for x in errs(xe['errors']))}, "
                         f"{{| d_iface := {I(('i', me['ih']))}; d_mtime := {e['data_mtime'] % 100000} |}}))")
                 sccs = [[m for m in s if m in uset] for s in w["sccs"]]
@@ -948,6 +953,10 @@ def model_cases(h: dict, res: dict) -> list[dict]:
         if w.get("entries"):
             for m, e in w["entries"].items():
                 view[m] = e
+            for scc in (w.get("sccs") or []):
+                for m in scc:
+                    if m in (w.get("rechecked_modules") or []) and m in w["entries"]:
+                        ghost[m] = (k + 1, [y for y in scc if y in w["entries"]])
     return cases
 
 
@@ -983,6 +992,34 @@ def correspondence(ctx, hs: list[dict], results: list[dict], limit: int) -> None
     out = ctx.eval_cases("model", COQ_HEADER, [c["term"] for c in cases], per_file=60)
     if out is None:
         return
+    # the decidable side condition scc_stable of the positive theorem, evaluated on every compared step
+    st_out = ctx.eval_cases("side", COQ_HEADER, [c["term"].replace("case ", "stab ", 1) for c in cases], per_file=120)
+    if st_out is not None:
+        ctx.cov["side_condition_scc_stable_true"] = sum(1 for x in st_out if x.strip() == "true")
+        ctx.cov["side_condition_scc_stable_false"] = sum(1 for x in st_out if x.strip() == "false")
+    # cache_is_function_of_inputs: the records a warm run leaves = the records the cold run of the same step leaves
+    # (source hash, interface hash, error_lines; dependency SETS are counted only), on steps where S sees no divergence
+    n_cmp = n_dep = 0
+    for r in results:
+        for rec in r["steps"]:
+            w, c = rec["warm"], rec["cold"]
+            if (r["idx"], r["cfg"], rec["k"]) in diverging or not w.get("entries") or not c.get("entries"):
+                continue
+            for m, we in w["entries"].items():
+                ce = c["entries"].get(m)
+                if not ce or "meta" not in we or "meta" not in ce or "ex" not in we or "ex" not in ce:
+                    continue
+                n_cmp += 1
+                a = (we["meta"]["hash"], we["meta"]["ih"], errs(we["ex"]["errors"]))
+                b = (ce["meta"]["hash"], ce["meta"]["ih"], errs(ce["ex"]["errors"]))
+                if a != b:
+                    ctx.broke("C", "cache_is_function_of_inputs: warm-left record differs from cold-left record",
+                              f"history {r['idx']} [{r['cfg']}] step {rec['k']} module {m}: warm {a} cold {b}")
+                    break
+                if (set(we["meta"]["deps"]), set(we["meta"]["supp"])) != (set(ce["meta"]["deps"]), set(ce["meta"]["supp"])):
+                    n_dep += 1
+    ctx.cov["cache_records_warm_vs_cold_compared"] = n_cmp
+    ctx.cov["cache_records_with_different_dependency_sets"] = n_dep
     bad = 0
     nontriv = 0
     explained = 0
